@@ -15,6 +15,9 @@
 // its control in a function-local static that cannot be cleared from outside; this also turns the runtime's release
 // assertion on value 0 into an observable "ABORT".
 // util.hpp defines set_global_tbb_concurrency in the header (non-inline before c20-fix-knob): this is the only TU.
+#if defined(__SANITIZE_ADDRESS__)
+#include <sanitizer/lsan_interface.h>
+#endif
 #include "common.hpp"
 #include <unistd.h>
 #include <sys/wait.h>
@@ -60,16 +63,17 @@ static void run_case(Toks &t, Out &out) {
             parmcb::set_global_tbb_concurrency(n);
         } else if (o == "C") {
             size_t s = t.next_sz(); std::size_t v = (std::size_t) std::stoull(t.next());
-            if (slots.count(s)) { out.put(" BADSLOT"); return; }
+            if (slots.count(s)) { out.put(" BADSLOT"); for (auto &kv : slots) delete kv.second; return; }
             slots[s] = new gc_t(gc_t::max_allowed_parallelism, v);
         } else if (o == "D") {
             size_t s = t.next_sz();
-            if (!slots.count(s)) { out.put(" BADSLOT"); return; }
+            if (!slots.count(s)) { out.put(" BADSLOT"); for (auto &kv : slots) delete kv.second; return; }
             delete slots[s]; slots.erase(s);
         } else throw std::runtime_error("case: bad op " + o);
         out.put(" " + std::to_string(active_now()));
     }
     if (t.more() && t.next() == "W") out.put(" W " + std::to_string(count_threads()));
+    for (auto &kv : slots) delete kv.second;      // the harness's own controls (so that a leak report can only come from the library)
 }
 
 int main() {
@@ -89,6 +93,9 @@ int main() {
             catch (const std::exception &e) { out.put(std::string(" IMPL-EXCEPTION ") + e.what()); }
             catch (...) { out.put(" IMPL-EXCEPTION unknown"); }
             close(fds[1]);
+#if defined(__SANITIZE_ADDRESS__)
+            __lsan_do_leak_check();  // sanitizer builds (C07): _exit skips the at-exit leak check, so run it here
+#endif
             _exit(0);               // no static destructors: the parent owns stdout
         }
         close(fds[1]);
